@@ -211,6 +211,13 @@ def submission_stream(ctx, quick):
             jobs = {n: [rng.random() < 0.25, rng.random() < 0.3, rng.choice([0, 4, 8, 16])] for n in nodes}
             structured.append(False)
         cases.append((adj, jobs))
+    # the two graphs of Props/C07.v (C07_resolved_at_submission_example / _nested_refuted), replayed on the real code
+    cases.append(([[5, [6, 7]], [6, [8]], [7, [8]], [8, []], [1, [2, 3]], [2, [4]], [3, [4]], [4, [5]]],
+                  {n: [n in (4, 8), n in (1, 5), 16] for n in range(1, 9)}))
+    structured.append(True)
+    cases.append(([[1, [6, 2]], [2, [3, 4]], [3, [5]], [4, [5]], [5, [7]], [6, [7]], [7, []]],
+                  {n: [n in (5, 7), n in (1, 2), 16] for n in range(1, 8)}))
+    structured.append(True)
     impl = core.run_impl("taskgraph.py", {"submission_probs": [{"adj": a, "jobs": {str(k): v for k, v in j.items()}, "den": tg.DEN}
                                                                 for a, j in cases]})["submission_probs"]
 
